@@ -8,6 +8,14 @@ VERIF = os.path.dirname(os.path.dirname(os.path.abspath(__file__)))
 
 # property -> (category, technique, text, note, design_ref)
 CHECKS = {
+    'C07': ('exploration', 'harness contraction of the raw stored MPS tensors (with the recorded form exponents) compared with the '
+            'source state; dense Schmidt spectra at every cut; window density matrices for infinite MPS',
+            'MPS are built by every constructor from harness-generated dense states / tensors; the harness contracts the raw '
+            'tensors itself and compares with the source (norm attribute included), then runs random histories of convert_form / '
+            'canonical_form / copy / get_B-set_B and re-checks; in canonical form the stored singular values, entropies, '
+            'spectra, chi, norm_test and total charge are compared with the dense Schmidt decomposition; infinite MPS are '
+            'checked through exact transfer-matrix density matrices and windows crossing the unit-cell boundary.',
+            'form exponents as documented in the module docstring of mps.py', 'DESIGN.md §C07'),
     'C19': ('exploration', 'integer brute-force lattice enumerator as reference model: multiset equality of enumerated couplings for '
             'ALL displacement vectors of every generated lattice; round trips of the index maps; tagged-array placement',
             'Lattices of every class (by reflection), ordering, boundary combination and MPS boundary are generated; for each, '
